@@ -125,7 +125,8 @@ impl Zero for Element {
     }
 
     fn is_zero(&self) -> bool {
-        self.inner.is_zero()
+        // Both (0, 1) and (0, -1) represent the identity element.
+        self.is_identity()
     }
 }
 
